@@ -62,6 +62,7 @@ func c01(c *Ctx) {
 	c01RowColumns(c, "C01.7/row-columns-compared-with-proven-row")
 	// a response that can not be verified is refused, it does not take the verifier down (analysis shared with C16.12)
 	c16PeerMessages(c, "C01.8/incomplete-response-is-refused")
+	c01ReturnedEntryIsTheProvenOne(c, "C01.9/returned-entry-is-the-proven-one")
 	// ---- C01.5 proto conversions carry every field ---------------------------------------------------------------------
 	c01Proto(c)
 }
@@ -940,5 +941,102 @@ func c01RowColumns(c *Ctx, r string) {
 		n++
 		okk, d := errHandled(in)
 		c.check(okk, r, fmt.Sprintf("%s:Equal#%d:error-handled", fnName(f), n), c.pos(in.Pos()), d, d)
+	}
+}
+
+// c01ReturnedEntryIsTheProvenOne: a verified get proves the inclusion of a digest the client computes itself. What is
+// handed to the caller is the server's message: every part of it the caller will rely on is either an input of that digest
+// or compared with the request.
+//   - the key the digest is computed for comes from the request, not from the answer;
+//   - the key named by the answer (Entry.Key on the plain path, ReferencedBy.Key on the reference path) is compared with it;
+//   - on the reference path the digest covers (alias -> referenced key, atTx): the VALUE shown, resolved by the server through
+//     the reference, is covered by nothing (the protocol carries no proof for it): reported, known finding.
+func c01ReturnedEntryIsTheProvenOne(c *Ctx, r string) {
+	fromAnswer := func(v ssa.Value) bool {
+		return dependsOn(v, func(x ssa.Value) bool {
+			switch fa := x.(type) {
+			case *ssa.FieldAddr:
+				n := structName(fa.X.Type())
+				return n == "Entry" || n == "Reference" || n == "VerifiableEntry"
+			}
+			return false
+		})
+	}
+	n := 0
+	for _, f := range c.allFns {
+		if !fnInPkgs(f, []string{"pkg/client"}) || len(f.Blocks) == 0 {
+			continue
+		}
+		for _, kind := range []struct{ callee, shown, name string }{
+			{"pkg/database.EncodeEntrySpec", "Entry.Key", "plain"},
+			{"pkg/database.EncodeReference", "Reference.Key", "reference"},
+		} {
+			for i, in := range sites(f, callTo(kind.callee)) {
+				args := callOf(in).Args
+				if !fromAnswer(args[len(args)-1]) && !fromAnswer(args[2]) {
+					continue // a digest of what the client itself sends (verified set): nothing of an answer is shown
+				}
+				n++
+				base := fmt.Sprintf("%s:%s-path#%d", fnName(f), kind.name, i)
+				c.check(!fromAnswer(args[0]), r, base+":digest-key-is-the-requested-key", c.pos(in.Pos()), "the digest is computed for the key of the request",
+					"the digest whose inclusion is proven is computed for a key taken from the ANSWER: the server chooses which entry it proves, whatever was asked")
+				// the key named by the answer is compared with something on an edge dominating the digest
+				cmp := false
+				allInstrs(f, false, func(x ssa.Instruction) {
+					cl, ok := x.(*ssa.Call)
+					if !ok || calleeName(&cl.Call) != "bytes.Equal" {
+						return
+					}
+					hit := false
+					for _, a := range cl.Call.Args {
+						dependsOn(a, func(v ssa.Value) bool {
+							if fa, ok := v.(*ssa.FieldAddr); ok && structName(fa.X.Type())+"."+fieldName(fa.X.Type(), fa.Field) == kind.shown {
+								hit = true
+								return true
+							}
+							return false
+						})
+					}
+					if !hit {
+						return
+					}
+					for _, rf := range *cl.Referrers() {
+						var ifi *ssa.If
+						pol := true
+						switch y := rf.(type) {
+						case *ssa.If:
+							ifi = y
+						case *ssa.UnOp:
+							if y.Op == token.NOT {
+								pol = false
+								for _, r2 := range *y.Referrers() {
+									if z, ok := r2.(*ssa.If); ok {
+										ifi = z
+									}
+								}
+							}
+						}
+						if ifi == nil {
+							continue
+						}
+						succ := 0
+						if !pol {
+							succ = 1
+						}
+						if edgeDominates(ifi.Block(), succ, in.Block()) {
+							cmp = true
+						}
+					}
+				})
+				c.check(cmp, r, base+":answer-key-compared", c.pos(in.Pos()), "the key named by the answer is compared before the answer is used",
+					"the "+kind.shown+" of the answer is handed to the caller without having been compared with the requested key (the proven digest is computed from the request): the caller is shown an entry under a name nothing proves")
+				if kind.name == "reference" {
+					c.fail(r, base+":resolved-value-proven", c.pos(in.Pos()), "the value shown for a key reached through a reference is the server's: the proven digest covers the reference (alias, referenced key, atTx) only, no proof is requested or checked for the referenced entry")
+				}
+			}
+		}
+	}
+	if n < 4 {
+		c.undecided(r, "floor", fmt.Sprintf("%d digests computed from an answer found in pkg/client (verifiedGet and _streamVerifiedGet, two paths each, confirmed by hand)", n))
 	}
 }
